@@ -215,6 +215,13 @@ var restoreCmd = &cobra.Command{
 					cleanedArg := filepath.Clean(arg)
 					cleanedArg = strings.ReplaceAll(cleanedArg, `\`, "/")
 					node, isNodeFound := object.GetNode(tree.Children, cleanedArg)
+					if _, _, isRegistered := client.Idx.GetEntry([]byte(cleanedArg)); !isNodeFound && isRegistered {
+						// a newly staged file that is gone from the working tree is unstaged
+						if err := restoreIndex(client.RootGoitPath, cleanedArg, client.Idx, tree); err != nil {
+							return err
+						}
+						continue
+					}
 					if !isNodeFound {
 						return fmt.Errorf("error: pathspec '%s' did not match any file(s) known to goit", arg)
 					}
